@@ -704,7 +704,7 @@ bool HttpMessage::putFile(const String& path, int begin, int end)
 		Long size = file.size();
 		if (end == 0)
 			end = int(size - 1);
-		if (end < begin || begin < 0 || end > size) // begin == end is the one-byte range
+		if (end < begin || begin < 0 || end >= size) // begin == end is the one-byte range; the last byte is size - 1
 		{
 			setHeader("Content-Length", "0");
 			setHeader("Content-Range", String::f("bytes */%lli", size));
